@@ -78,7 +78,7 @@ Print Assumptions C06_unbuffered.
 
 (* a handler-issued send with buffering off is one write attempt of the encoded message *)
 Theorem C06_send_is_write :
-  forall m s, m_cmd m = 3 \/ m_cmd m = 1 -> send m false s = write (encode m) s.
+  forall m s, m_cmd m = 3 \/ m_cmd m = 1 -> send m false s = write_msg m s.
 Proof.
   intros m s [H|H]; [apply send_unbuffered_internal|apply send_unbuffered_set]; exact H.
 Qed.
